@@ -260,7 +260,7 @@ def excluded_by_open(it, maxsize):
         if n > maxsize:
             if not plus and K_SYNC in OPEN:
                 out.append(K_SYNC)
-            if plus and K_NONSYNC in OPEN and body is not None and CRLF in body + lines[j + 1] + CRLF[:1]:
+            if plus and K_NONSYNC in OPEN and body is not None and CRLF in (body + lines[j + 1]):
                 out.append(K_NONSYNC)
             break
         run += n + 2
